@@ -213,9 +213,13 @@ impl Sel {
 }
 
 async fn connect(addr: &str, timeout_ms: u64) -> anyhow::Result<Channel> {
-    let ep = Channel::from_shared(format!("http://{}", addr))?
+    let mut ep = Channel::from_shared(format!("http://{}", addr))?
         .tcp_nodelay(true)
         .timeout(Duration::from_secs(3600));
+    // a client with small HTTP/2 receive windows (a constrained SDK): VH_GRPC_H2_WINDOW=<bytes>
+    if let Some(w) = std::env::var("VH_GRPC_H2_WINDOW").ok().and_then(|v| v.parse::<u32>().ok()) {
+        ep = ep.initial_stream_window_size(w).initial_connection_window_size(w);
+    }
     match tokio::time::timeout(Duration::from_millis(timeout_ms), ep.connect()).await {
         Ok(Ok(c)) => Ok(c),
         Ok(Err(e)) => Err(anyhow::anyhow!("connect {}: {}", addr, e)),
